@@ -620,6 +620,48 @@ void findAndReplaceComponentCnUnitsNames(const ComponentPtr &component, const st
     }
 }
 
+void findAndReplaceCnUnitsNames(const XmlNodePtr &node, const StringStringMap &names)
+{
+    XmlNodePtr childNode = node->firstChild();
+    while (childNode != nullptr) {
+        if (childNode->isMathmlElement("cn")) {
+            auto match = names.find(childNode->attribute("units"));
+            if (match != names.end()) {
+                childNode->setAttribute("units", match->second.c_str());
+            }
+        }
+        findAndReplaceCnUnitsNames(childNode, names);
+        childNode = childNode->next();
+    }
+}
+
+void findAndReplaceComponentCnUnitsNames(const ComponentPtr &component, const StringStringMap &names)
+{
+    std::string mathContent = component->math();
+    if (mathContent.empty() || names.empty()) {
+        return;
+    }
+    bool contentModified = false;
+    std::string newMathContent;
+    std::vector<XmlDocPtr> mathDocs = multiRootXml(mathContent);
+    for (const auto &doc : mathDocs) {
+        auto rootNode = doc->rootNode();
+        if ((rootNode != nullptr) && rootNode->isMathmlElement("math")) {
+            auto originalMath = rootNode->convertToString();
+            findAndReplaceCnUnitsNames(rootNode, names);
+            auto newMath = rootNode->convertToString();
+            newMathContent += newMath;
+            if (newMath != originalMath) {
+                contentModified = true;
+            }
+        }
+    }
+
+    if (contentModified) {
+        component->setMath(newMathContent);
+    }
+}
+
 void findAndReplaceComponentsCnUnitsNames(const ComponentPtr &component, const std::string &oldName, const std::string &newName)
 {
     findAndReplaceComponentCnUnitsNames(component, oldName, newName);
